@@ -44,6 +44,16 @@ def parseInt? (s : String) : Option Int := s.toInt?
 def parseInts? (s : String) : Option (List Int) :=
   if s.isEmpty then some [] else (s.splitOn ",").mapM parseInt?
 
+/-- C17: the implementation returned normally and promptly (a panic is the canonical result
+    `PANIC`, more than 2 s on these inputs is `HANG:<ms>`); non-trivial = an input of at least
+    8 bytes (it gets past the first parser stage) -/
+def oracleC17 (args : List (List UInt8)) (impl : String) : String × String :=
+  let n := (args.map List.length).foldl (· + ·) 0
+  let nt := if n ≥ 8 then "nt" else ""
+  if impl == "PANIC" then ("fail:panic", nt)
+  else if impl.startsWith "HANG" then ("fail:hang=" ++ impl, nt)
+  else ("ok", nt)
+
 /-- a handler gets the op, decoded args and the implementation's result; it returns
     (model result, oracle verdict, tags) -/
 abbrev Handler := String → List (List UInt8) → String → Option (String × String × String)
